@@ -159,10 +159,28 @@ def checksum_corrupt(E, R, n):
     p = E.bytes("p", n, mode="int")
     c = E.bytes("c", 4, mode="int")
     good = E.H.hash256(p)[:4]
-    E.assume(~E_eq(E, c, good))
+    E.assume(~E_eq(E, c, good) if E.symbolic else c != good)
     s = R.helper.encode_base58(p + c)
     d = E.run(R.helper.decode_base58_checksum, s)
     E.check(isinstance(d, Raised), "wrong checksum rejected")
+    return "ok"
+
+
+def checksum_history(E, R, n, first):
+    """state left by earlier requests may not make the decoder accept a wrong checksum: the same payload is first
+    handled with its valid checksum (encoded, or decoded successfully), then presented with four other checksum bytes"""
+    p = E.bytes("p", n, mode="int") if n else b""
+    c = E.bytes("c", 4, mode="int")
+    good = E.H.hash256(p)[:4]
+    E.assume(~E_eq(E, c, good) if E.symbolic else c != good)
+    if first == "encode":
+        ok = E.run(R.helper.encode_base58_checksum, p)
+    else:
+        ok = E.run(R.helper.decode_base58_checksum, R.helper.encode_base58(p + good))
+    E.check(not isinstance(ok, Raised), "valid checksummed string handled")
+    s = R.helper.encode_base58(p + c)
+    d = E.run(R.helper.decode_base58_checksum, s)
+    E.check(isinstance(d, Raised), "wrong checksum rejected although the same payload was handled with a valid checksum before")
     return "ok"
 
 
@@ -234,6 +252,10 @@ def cases(tier):
     for n in range(0, (2 if q else 3) + 1):
         cs.append(Case("checksum_corrupt[%d]" % n, "checksum_corrupt", dict(n=n), weight=2 ** (n + 4),
                        need=("wrong checksum rejected",)))
+    for n in range(0, (1 if q else 2) + 1):
+        for first in ("encode", "decode"):
+            cs.append(Case("checksum_history[%d,%s]" % (n, first), "checksum_history", dict(n=n, first=first), weight=2 ** (n + 4),
+                           need=("wrong checksum rejected although the same payload was handled with a valid checksum before",)))
     return cs
 
 
@@ -245,4 +267,5 @@ def vectors():
     v.append(("enc_dec", {"m": 6}, {"s": "1112Ab"}))
     v.append(("roundtrip", {"n": 5}, {"b": "0000ff0102"}))
     v.append(("reject", {"m": 4}, {"s": "1Il0"}))
+    v.append(("checksum_history", {"n": 1, "first": "decode"}, {"p": "6f", "c": "01020304"}))
     return v
